@@ -35,6 +35,7 @@ import (
 	"sort"
 	"strings"
 	"sync"
+	"sync/atomic"
 	"testing"
 	"testing/synctest"
 	"time"
@@ -89,27 +90,51 @@ type barrier struct {
 	parties int
 	waiting int
 	gen     chan struct{}
+	spin    *spinGate
+}
+
+// spinGate is the second phase of a meeting: the parties, all runnable again,
+// spin until every one of them is actually running, so that they leave within
+// nanoseconds of each other (bounded: a party that gets no processor in time is
+// not waited for).
+type spinGate struct {
+	n    int32
+	want int32
+}
+
+func (g *spinGate) pass() {
+	atomic.AddInt32(&g.n, 1)
+	for i := 0; i < 200000 && atomic.LoadInt32(&g.n) < g.want; i++ {
+	}
 }
 
 func newBarrier(n int) *barrier { return &barrier{parties: n, gen: make(chan struct{})} }
 
-func (b *barrier) release() {
+func (b *barrier) release() *spinGate {
+	g := &spinGate{want: int32(b.waiting)}
+	b.spin = g
 	close(b.gen)
 	b.gen = make(chan struct{})
 	b.waiting = 0
+	return g
 }
 
 func (b *barrier) wait() {
 	b.mu.Lock()
 	b.waiting++
 	if b.waiting >= b.parties {
-		b.release()
+		g := b.release()
 		b.mu.Unlock()
+		g.pass()
 		return
 	}
 	ch := b.gen
 	b.mu.Unlock()
 	<-ch
+	b.mu.Lock()
+	g := b.spin
+	b.mu.Unlock()
+	g.pass()
 }
 
 func (b *barrier) leave() {
